@@ -115,7 +115,7 @@ func errTag(ex *Exec) int64 {
 }
 
 var purePkgs = []string{"strings.", "strconv.", "unicode.", "unicode/utf8.", "encoding/hex.", "go.uber.org/zap.", "go.uber.org/zap/zapcore.",
-	"reflect.TypeOf", "crypto/md5.Sum", "bytes.Compare", "bytes.Equal", "fmt.Sprintf", "fmt.Sprint", "math/bits.", "path.", "net.ParseIP", "time.Since", "time.Until",
+	"reflect.TypeOf", "crypto/md5.Sum", "(encoding/binary.bigEndian).Uint", "(encoding/binary.littleEndian).Uint", "bytes.Compare", "bytes.Equal", "fmt.Sprintf", "fmt.Sprint", "math/bits.", "path.", "net.ParseIP", "time.Since", "time.Until",
 	"(time.Duration).", "(time.Time).", "sort.SearchInts", "errors.Is", "errors.Unwrap", "(net.IP).String", "(net.IP).To4", "(net.IP).To16", "(net.IP).Equal", "(*net.IPAddr).String",
 	"(github.com/datastax/go-cassandra-native-protocol/primitive.ProtocolVersion).", "(github.com/datastax/go-cassandra-native-protocol/primitive.ConsistencyLevel).",
 	"(github.com/datastax/go-cassandra-native-protocol/primitive.OpCode).", "(github.com/datastax/go-cassandra-native-protocol/primitive.ErrorCode).",
